@@ -129,6 +129,7 @@ InC01Domain(t, o) ==
   /\ ("UserProperties" \in DOMAIN o => UPsOK(o["UserProperties"]))
   /\ ("MaxQoS" \in DOMAIN o => o["MaxQoS"] \in {0, 1})
   /\ IF t = 1 THEN
+        /\ o["ProtocolName"] = MQTTName /\ o["ProtocolVersion"] = 5                  \* MQTT v5.0 (other names / versions: accessors only)
         /\ (o["Will"].has /\ "stale" \in DOMAIN o["Will"] => ~o["Will"].stale)      \* D1: not modified after it was attached
         /\ (o["Will"].has => LET w == o["Will"].val IN
                /\ w["QoS"] \in 0..2 /\ Len(w["TopicName"]) <= 65535 /\ TextOK(w["TopicName"])
